@@ -65,6 +65,7 @@ type LState struct {
 	Commits      []CommitRec
 	Props        [][2]string // stored proposals (view, hash) at the current height
 	Rec          map[string]bool // successful stores at the current height
+	Early        map[int]bool    // future-height messages already delivered to (and cached by) this node
 	Approved     []string
 	Requested    []string
 	checked2     bool
@@ -292,6 +293,10 @@ func (e *Engine) canon(ln *liveNode) (string, *LState) {
 		}
 	}
 	ls.Approved, ls.Requested = keys(n.Approved), keys(n.Requested)
+	ls.Early = map[int]bool{}
+	for _, raw := range n.EarlyRaw() {
+		ls.Early[e.intern(raw, "")] = true
+	}
 	armedS := "none"
 	if armed {
 		armedS = fmt.Sprintf("%d/%d", ah, av)
@@ -432,12 +437,16 @@ func (e *Engine) soup(g GKey) []Sent {
 
 var typeOrder = map[string]int{ref.KNV: 0, ref.KPP: 1, ref.KP: 2, ref.KC: 3, ref.KVC: 4}
 
-func (e *Engine) addressed(soup []Sent, node int, height uint64) []int {
+func (e *Engine) addressed(soup []Sent, node int, ls *LState) []int {
 	var r []int
+	height := ls.Height
 	for _, s := range soup {
 		if s.To&(1<<uint(node)) != 0 {
-			if e.Cfg.Heights <= 1 && e.msg(int(s.Msg)).Info.Hdr.Height != height {
-				continue
+			if ls.Early[s.Msg] {
+				continue // a future-height message this node already holds in its cache (re-delivery would only grow the cache)
+			}
+			if mh := e.msg(int(s.Msg)).Info.Hdr.Height; e.Cfg.Heights <= 1 && mh != height || mh < height || mh > uint64(max(e.Cfg.Heights, 1)) {
+				continue // single-height runs: only the current height; multi-height: nothing below it, nothing beyond the last height
 			}
 			r = append(r, s.Msg)
 		}
@@ -459,6 +468,11 @@ func (e *Engine) addressed(soup []Sent, node int, height uint64) []int {
 		return msgKey(e.msg(r[a]).Raw) < msgKey(e.msg(r[b]).Raw)
 	})
 	return r
+}
+
+// finished: the node takes no further steps (dead, or it has committed the last height of the run).
+func (e *Engine) finished(ls *LState) bool {
+	return ls.Dead || len(ls.Commits) >= max(e.Cfg.Heights, 1)
 }
 
 func (e *Engine) reportable(v Violation) bool {
@@ -532,10 +546,10 @@ func (e *Engine) expand(g GKey) []succ {
 	soup := e.soup(g)
 	for s, node := range e.Honest {
 		ls := e.lstate(int(g[s]))
-		if ls.Dead || (e.Cfg.Heights <= 1 && len(ls.Commits) > 0) {
+		if e.finished(ls) {
 			continue
 		}
-		addr := e.addressed(soup, node, ls.Height)
+		addr := e.addressed(soup, node, ls)
 		if e.Cfg.D >= 0 { // flush
 			cur := int(g[s])
 			var rs []*LRes
@@ -545,7 +559,7 @@ func (e *Engine) expand(g GKey) []succ {
 				if len(r.Viol) > 0 || len(r.Commits) > 0 {
 					rs = append(rs, r)
 				}
-				if c := e.lstate(cur); c.Dead || (e.Cfg.Heights <= 1 && len(c.Commits) > 0) {
+				if c := e.lstate(cur); e.finished(c) {
 					break
 				}
 			}
@@ -621,7 +635,7 @@ func (e *Engine) c11(g, ng GKey, s int) []Violation {
 				continue
 			}
 			p := e.lstate(int(ng[ps]))
-			if p.Dead || len(p.Commits) > 0 || p.Height != i.Hdr.Height {
+			if e.finished(p) || p.Height != i.Hdr.Height {
 				continue
 			}
 			pid := string(e.Cfg.C[pnode].ID)
@@ -652,7 +666,7 @@ func (e *Engine) c11(g, ng GKey, s int) []Violation {
 			}
 			switch i.Kind {
 			case ref.KNV:
-				if q.Height == p.Height && len(q.Commits) == 0 {
+				if q.Height == p.Height && len(q.Commits) == len(p.Commits) {
 					prepared := false
 					for _, y := range q.Sent {
 						mi := e.msg(y.Msg).Info
@@ -669,11 +683,11 @@ func (e *Engine) c11(g, ng GKey, s int) []Violation {
 					bad("vote-not-counted", "as the addressed leader did not count the correct member's %s", i.Desc())
 				}
 			case ref.KP:
-				if q.Height == p.Height && len(q.Commits) == 0 && !q.Rec[fmt.Sprintf("P/%d/%d/%s/%s", i.Hdr.Height, v, i.Hdr.Hash, i.Sender.ID)] {
+				if q.Height == p.Height && len(q.Commits) == len(p.Commits) && !q.Rec[fmt.Sprintf("P/%d/%d/%s/%s", i.Hdr.Height, v, i.Hdr.Hash, i.Sender.ID)] {
 					bad("prepare-not-counted", "did not count the correct member's %s", i.Desc())
 				}
 			case ref.KC:
-				if q.Height == p.Height && len(q.Commits) == 0 && !q.Rec[fmt.Sprintf("C/%d/%d/%s/%s", i.Hdr.Height, v, i.Hdr.Hash, i.Sender.ID)] {
+				if q.Height == p.Height && len(q.Commits) == len(p.Commits) && !q.Rec[fmt.Sprintf("C/%d/%d/%s/%s", i.Hdr.Height, v, i.Hdr.Hash, i.Sender.ID)] {
 					bad("commit-not-counted", "did not count the correct member's %s", i.Desc())
 				}
 			}
@@ -778,8 +792,12 @@ func (e *Engine) outcome(g GKey) string {
 	for s := range e.Honest {
 		ls := e.lstate(int(g[s]))
 		c := "-"
-		if len(ls.Commits) > 0 {
-			c = ls.Commits[0].Tag
+		for k, cm := range ls.Commits {
+			if k == 0 {
+				c = cm.Tag
+			} else {
+				c += "+" + cm.Tag
+			}
 		}
 		p = append(p, fmt.Sprintf("%d.%d.%s", ls.Height, ls.View, c))
 	}
@@ -849,13 +867,13 @@ func (e *Engine) Render(f Found) ReplayFile {
 		case 'f':
 			ls := e.lstate(int(cur[slot]))
 			c := int(cur[slot])
-			for _, m := range e.addressed(e.soup(cur), int(ev.Node), ls.Height) {
+			for _, m := range e.addressed(e.soup(cur), int(ev.Node), ls) {
 				r := e.localStep(c, Event{'d', m})
 				if r.Next != c || len(r.Viol) > 0 {
 					rf.Events = append(rf.Events, e.msgEvent("deliver", int(ev.Node), m))
 				}
 				c = r.Next
-				if e.lstate(int(c)).Dead || (e.Cfg.Heights <= 1 && len(e.lstate(int(c)).Commits) > 0) {
+				if e.finished(e.lstate(int(c))) {
 					break
 				}
 			}
